@@ -576,12 +576,47 @@ def plan_c14(doc: dict, man: dict, args: dict) -> list:
     return acts
 
 
+def plan_c14params(doc: dict, man: dict, args: dict) -> list:
+    """Every parameter whose enum lists null: one call passing None, one call per listed value."""
+    acts = []
+    for ep in man.get("endpoints") or []:
+        found = find_op(doc, ep["method"], ep["path"])
+        if not found:
+            continue
+        path, op, item = found
+        eff = effective_params(doc, op, item)
+        mod = f"api.{ep['tag']}.{ep['module']}"
+        base = {}
+        okk = True
+        for loc in ("path", "query", "header", "cookie"):
+            for p in ep["params"][loc]:
+                if p["required"]:
+                    dp = eff.get((p["name"], loc))
+                    vals = [v for v in (docs.resolve((dp or {}).get("schema") or {}, comps_of(doc)).get("enum") or []) if v is not None]
+                    if not vals:
+                        okk = False
+                    else:
+                        base[p["python_name"]] = to_desc(p, vals[0])
+        if not okk:
+            continue
+        for loc in ("query", "header", "cookie"):
+            for p in ep["params"][loc]:
+                dp = eff.get((p["name"], loc))
+                sch = docs.resolve((dp or {}).get("schema") or {}, comps_of(doc))
+                if not isinstance(sch.get("enum"), list) or None not in sch["enum"]:
+                    continue
+                for v in sch["enum"]:
+                    acts.append({"a": "call", "module": mod, "variants": ["sync_detailed"], "args": dict(base, **{p["python_name"]: (None if v is None else to_desc(p, v))}), "client": {}, "response": {"status": 200},
+                                 "x": {"case": ep["name"], "param": p["name"], "loc": loc, "value": v}})
+    return acts
+
+
 def plan_c13(doc: dict, man: dict, args: dict) -> list:
     acts = []
     eps = {e["name"]: e for e in man.get("endpoints") or []}
     for key, case in (args.get("cases") or {}).items():
         route = case["route"]
-        if route in ("direct", "ref", "allof"):
+        if route in ("direct", "ref", "allof", "allof_any_base", "shared_enum_name"):
             ent = (man.get("refs") or {}).get(f"/components/schemas/{key}")
             if ent and ent["kind"] == "ModelProperty" and ent["cls"] in man["models"]:
                 acts.append({"a": "construct", "cls": ent["cls"], "kwargs": {}, "x": {"case": key}})
@@ -624,7 +659,7 @@ def plan_c18_ops(doc, man, args):
             for p in ep["params"][l]:
                 py[(l, p["name"])] = p["python_name"]
         kwargs = {}
-        vals = {(loc, N): "val", ("query", "other"): "ov", ("header", "hh"): "hv", ("cookie", "cc"): "cv", ("query", "lstq"): {"$t": "list", "v": [{"$t": "date", "v": "2020-01-02"}]}}
+        vals = {(loc, N): "val", ("path", N + "Id"): "sib", ("query", "other"): "ov", ("header", "hh"): "hv", ("cookie", "cc"): "cv", ("query", "lstq"): {"$t": "list", "v": [{"$t": "date", "v": "2020-01-02"}]}}
         for k, v in vals.items():
             if k in py:
                 kwargs[py[k]] = v
@@ -711,4 +746,4 @@ def plan_import(doc, man, args):
     return [{"a": "import_all"}]
 
 
-PLANS = {"c13rand": plan_c13rand, "models": plan_models, "ops": plan_ops, "import": plan_import, "models_given": plan_models_given, "defaults": plan_defaults, "c05": plan_c05, "c14": plan_c14, "c13": plan_c13, "c10": plan_c10, "c15": plan_c15, "c18_ops": plan_c18_ops, "c11": plan_c11}
+PLANS = {"c14params": plan_c14params, "c13rand": plan_c13rand, "models": plan_models, "ops": plan_ops, "import": plan_import, "models_given": plan_models_given, "defaults": plan_defaults, "c05": plan_c05, "c14": plan_c14, "c13": plan_c13, "c10": plan_c10, "c15": plan_c15, "c18_ops": plan_c18_ops, "c11": plan_c11}
